@@ -245,7 +245,7 @@ func (c config) String() string {
 }
 
 func newRec(c config, scen string, seed int64) *rec {
-	opt := sim.Options{Validators: c.validators, Nodes: c.nodes, PoS: c.pos, EpochLength: c.epoch, SkipLogs: true}
+	opt := sim.Options{Validators: c.validators, Nodes: c.nodes, PoS: c.pos, EpochLength: c.epoch, SkipLogs: true, RealRun: true}
 	if scen == "posweights" {
 		opt.StakingPeriod = 2 * c.epoch
 	}
@@ -565,6 +565,18 @@ func scenLateSibling(r *rec, _ int) {
 			}
 		}
 	}
+	// late CHILDREN of checkpoints: the parent is exactly a (later finalized) checkpoint block
+	for e := 1; e < 5; e++ {
+		cp := e * E // height of the checkpoint
+		if cp-1 >= len(chain) || cp >= len(chain) {
+			continue
+		}
+		par := chain[cp-1].Header().ID()
+		orig := r.net.SignerOf(chain[cp].Header())
+		if s := r.mint(par, (orig+1)%v, true); s != nil {
+			siblings = append(siblings, s)
+		}
+	}
 	for i := range r.net.Nodes {
 		for _, b := range chain {
 			r.deliver(i, b)
@@ -768,7 +780,56 @@ func scenStalePack(r *rec, blocks int) {
 	}
 }
 
-var scenarios = []string{"sync", "async", "async-restart", "byz", "equivocate", "permute", "latesibling", "boundary", "posweights", "doublevote", "stalefork", "stalepack"}
+// scenShortBest: the best chain is SHORTER than a stored losing branch (it has the higher total score because the long
+// branch skipped slots); the node restarts in that state; then the best chain grows through heights the losing branch
+// already occupies, and the losing branch grows as well. Every block must import without error on every node.
+func scenShortBest(r *rec, _ int) {
+	g := r.net.B0
+	ts := g.Header().Timestamp()
+	var a []*block.Block // long, light branch: every block skips three slots
+	parent := g.Header().ID()
+	for i := 0; i < 4; i++ {
+		ts += 40
+		blk, err := r.net.Mint(parent, 3, false, ts)
+		if err != nil {
+			return
+		}
+		r.noteBlock(blk)
+		a = append(a, blk)
+		parent = blk.Header().ID()
+		ts = blk.Header().Timestamp()
+	}
+	var b []*block.Block // short, heavy branch: prompt blocks by alternating validators
+	parent = g.Header().ID()
+	for i := 0; i < 6; i++ {
+		blk := r.mint(parent, i%3, false)
+		if blk == nil {
+			return
+		}
+		b = append(b, blk)
+		parent = blk.Header().ID()
+	}
+	for i := range r.net.Nodes {
+		r.deliver(i, a[0])
+		r.deliver(i, a[1])
+		r.deliver(i, a[2])
+		r.deliver(i, b[0]) // best although height 1 < 3
+		if i%2 == 0 {
+			r.restart(i)
+		}
+		r.deliver(i, b[1]) // heights 2, 3 are occupied by the losing branch
+		r.deliver(i, b[2])
+		r.deliver(i, a[3]) // the losing branch grows on top of blocks stored before the restart
+		if i%2 == 1 {
+			r.restart(i)
+		}
+		for _, x := range b[3:] {
+			r.deliver(i, x)
+		}
+	}
+}
+
+var scenarios = []string{"sync", "async", "async-restart", "byz", "equivocate", "permute", "latesibling", "boundary", "posweights", "doublevote", "stalefork", "stalepack", "shortbest"}
 
 func runOne(scen string, seed int64, blocks int) ([]trace.Ev, runStat) {
 	rng := rand.New(rand.NewSource(seed))
@@ -807,6 +868,8 @@ func runOne(scen string, seed int64, blocks int) ([]trace.Ev, runStat) {
 		c = config{4, 2, pos, 3}
 	case "stalepack":
 		c = config{4, 4, pos, epoch}
+	case "shortbest":
+		c = config{4, 2, false, epoch}
 	default:
 		panic("unknown scenario " + scen)
 	}
@@ -836,6 +899,8 @@ func runOne(scen string, seed int64, blocks int) ([]trace.Ev, runStat) {
 		scenStaleFork(r, blocks)
 	case "stalepack":
 		scenStalePack(r, blocks)
+	case "shortbest":
+		scenShortBest(r, blocks)
 	}
 	evs := r.finish()
 	return evs, r.st
